@@ -117,6 +117,8 @@ class LockFlow:
             if gk == "guard":
                 if not args:
                     return st.setg(var, None, False) if var else st
+                if len(args) == 2 and "adopt_lock" in T(args[0]):
+                    args = [args[1], args[0]]           # std::scoped_lock(std::adopt_lock, m): the tag comes first
                 a0 = strip(args[0])
                 a0p = P(a0)
                 tag = T(args[1]) if len(args) > 1 else ""
